@@ -50,7 +50,7 @@ def worker_main(prop, bseed, tier, start, stride, count, wall, indices=None):
         if len(cases) == 1:
             rs = [isolate.run_isolated(mod.run_case, cases[0], timeout=timeout)]
         else:
-            rs = isolate.run_isolated(lambda cs: [_safe(mod.run_case, c) for c in cs], cases, timeout=timeout * len(cases))
+            rs = isolate.run_isolated(lambda cs: [_safe(mod.run_case, c) for c in cs], cases, timeout=timeout + 10.0 * len(cases))
             if not isinstance(rs, list) or len(rs) != len(cases):
                 # the chunk as a whole failed (time-out, crash): run its cases one by one
                 rs = [isolate.run_isolated(mod.run_case, c, timeout=timeout) for c in cases]
